@@ -584,7 +584,90 @@ fn rng_line() -> String {
     s
 }
 
+thread_local! {
+    /// inconsistencies between public API functions that should agree (reported once per case as APICHK)
+    static API_ISSUES: std::cell::RefCell<Vec<String>> = const { std::cell::RefCell::new(Vec::new()) };
+}
+
+fn api_issue(what: String) {
+    API_ISSUES.with(|v| {
+        let mut v = v.borrow_mut();
+        if v.len() < 3 {
+            v.push(what);
+        }
+    });
+}
+
+fn api_line() -> String {
+    let v = API_ISSUES.with(|v| std::mem::take(&mut *v.borrow_mut()));
+    if v.is_empty() {
+        "APICHK ok".to_string()
+    } else {
+        format!("APICHK FAILED {}", v.join(" ; "))
+    }
+}
+
+/// the small public functions on values and signals agree with each other and with the data they wrap
+fn api_check_row(row: &digital_test_runner::DataRow<'_>) {
+    for r in &row.outputs {
+        let a = r.expected.check(r.output);
+        let b = r.output.check(r.expected);
+        if a != b || a != r.check() {
+            api_issue(format!("check disagrees: ExpectedValue::check={a} OutputValue::check={b} entry.check={}", r.check()));
+        }
+        if r.is_checked() != !matches!(r.expected, ExpectedValue::X) {
+            api_issue(format!("is_checked={} for expected {}", r.is_checked(), expval_s(r.expected)));
+        }
+        let ov = match r.output { OutputValue::Value(n) => Some(n), _ => None };
+        if r.output.value() != ov {
+            api_issue(format!("OutputValue::value() of {}", outval_s(r.output)));
+        }
+        if format!("{}", r.output) != outval_s(r.output) || format!("{}", r.expected) != expval_s(r.expected) {
+            api_issue(format!("Display of output {} / expected {}", outval_s(r.output), expval_s(r.expected)));
+        }
+    }
+    let failing: Vec<*const _> = row.failing_outputs().map(|r| r as *const _).collect();
+    let want: Vec<*const _> = row.outputs.iter().filter(|r| !r.check()).map(|r| r as *const _).collect();
+    if failing != want {
+        api_issue("failing_outputs() is not the list of entries whose check() is false".to_string());
+    }
+    for e in &row.inputs {
+        let iv = match e.value { InputValue::Value(n) => Some(n), InputValue::Z => None };
+        if e.value.value() != iv || format!("{}", e.value) != inval_s(e.value) {
+            api_issue(format!("InputValue::value()/Display of {}", inval_s(e.value)));
+        }
+        let (b0, b9) = (format!("{:b}", e.value), format!("{:9b}", e.value));
+        let (w0, w9) = match e.value {
+            InputValue::Value(n) => (format!("{n:b}"), format!("{n:9b}")),
+            InputValue::Z => ("z".to_string(), "z".repeat(9)),
+        };
+        if b0 != w0 || b9 != w9 {
+            api_issue(format!("Binary formatting of input {}: {b0:?} {b9:?}", inval_s(e.value)));
+        }
+    }
+}
+
+fn api_check_signals(signals: &[Signal]) {
+    for s in signals {
+        let (i, o, b, d, disp) = match &s.typ {
+            SignalType::Input { default } => (true, false, false, Some(*default), Some(format!("{}({}:{})", s.name, s.bits, inval_s(*default)))),
+            SignalType::Output => (false, true, false, None, Some(format!("{}({})", s.name, s.bits))),
+            SignalType::Bidirectional { default } => (true, true, true, Some(*default), Some(format!("{}[{}:{}]", s.name, s.bits, inval_s(*default)))),
+            SignalType::Virtual { .. } => (false, false, false, None, None),
+        };
+        if s.is_input() != i || s.is_output() != o || s.is_bidirectional() != b || s.default_value() != d {
+            api_issue(format!("predicates of signal {}", signal_s(s)));
+        }
+        if let Some(want) = disp {
+            if format!("{s}") != want {
+                api_issue(format!("Display of signal {}: {}", signal_s(s), format!("{s}")));
+            }
+        }
+    }
+}
+
 fn row_line(row: &digital_test_runner::DataRow<'_>) -> String {
+    api_check_row(row);
     let outs = row
         .outputs
         .iter()
@@ -736,7 +819,10 @@ fn run_dynamic<D: TestDriver<Error = DrvError>>(
     let _ = verif_hooks::take_rng_log();
     let res = catch_unwind(AssertUnwindSafe(|| {
         let mut local = String::new();
-        let it = tc.try_iter(driver);
+        // `run_iter` is the deprecated name of `try_iter`: every third test goes through it
+        #[allow(deprecated)]
+        let it = if c.seed % 3 == 0 { tc.run_iter(driver) } else { tc.try_iter(driver) };
+        api_check_signals(&tc.signals);
         match it {
             Err(e) => {
                 flush_calls(sh, &mut local);
@@ -798,6 +884,7 @@ fn run_dynamic<D: TestDriver<Error = DrvError>>(
         }
     }
     out(buf, &rng_lines(c.seed));
+    out(buf, &api_line());
     // the driver's own record of what it returned for which signal on which call (C03/C13 oracle)
     let rec = sh
         .borrow()
@@ -975,8 +1062,72 @@ fn run_multi(c: &Case, tc: &TestCase, buf: &mut String) {
     verif_hooks::set_seed_override(None);
 }
 
+/// inverse of `str::escape_debug` (the payload of a string field in a derived Debug text)
+fn debug_unescape(s: &str) -> String {
+    let mut out = String::new();
+    let mut it = s.chars().peekable();
+    while let Some(ch) = it.next() {
+        if ch != '\\' {
+            out.push(ch);
+            continue;
+        }
+        match it.next() {
+            Some('n') => out.push('\n'),
+            Some('r') => out.push('\r'),
+            Some('t') => out.push('\t'),
+            Some('0') => out.push('\0'),
+            Some('u') => {
+                let mut hex = String::new();
+                if it.peek() == Some(&'{') {
+                    it.next();
+                    for h in it.by_ref() {
+                        if h == '}' {
+                            break;
+                        }
+                        hex.push(h);
+                    }
+                }
+                if let Some(c) = u32::from_str_radix(&hex, 16).ok().and_then(char::from_u32) {
+                    out.push(c);
+                }
+            }
+            Some(other) => out.push(other),
+            None => {}
+        }
+    }
+    out
+}
+
+/// `File::open` on a file holding the text, and the `FromStr` impl, agree with `File::parse`
+fn dig_entry_points(c: &Case, xml: &str) -> String {
+    let view = |r: Result<dig::File, digital_test_runner::errors::DigFileError>| match r {
+        Ok(f) => format!("ok {:?}", f),
+        Err(e) => {
+            let dbg = format!("{e:?}");
+            format!("err {}", ident(dbg.strip_prefix("DigFileError(").unwrap_or(&dbg)))
+        }
+    };
+    let direct = catch_unwind(AssertUnwindSafe(|| view(dig::File::parse(xml))));
+    let from_str = catch_unwind(AssertUnwindSafe(|| view(xml.parse::<dig::File>())));
+    let path = std::env::temp_dir().join(format!("dtr_harness_{}_{}.dig", std::process::id(), c.id.replace(|ch: char| !ch.is_ascii_alphanumeric(), "_")));
+    let opened = if std::fs::write(&path, xml).is_ok() {
+        let r = catch_unwind(AssertUnwindSafe(|| view(dig::File::open(&path))));
+        let _ = std::fs::remove_file(&path);
+        r
+    } else {
+        catch_unwind(AssertUnwindSafe(|| view(dig::File::parse(xml))))
+    };
+    let s = |r: &std::thread::Result<String>| r.as_ref().map(|x| x.as_str()).unwrap_or("PANIC").to_string();
+    if s(&direct) == s(&from_str) && s(&direct) == s(&opened) {
+        "ENTRY same".to_string()
+    } else {
+        format!("ENTRY DIFFERENT parse=[{:.80}] from_str=[{:.80}] open=[{:.80}]", s(&direct), s(&from_str), s(&opened))
+    }
+}
+
 fn run_dig(c: &Case, buf: &mut String) {
     let xml = c.xml.clone();
+    out(buf, &dig_entry_points(c, &xml));
     match catch_unwind(AssertUnwindSafe(|| dig::File::parse(&xml))) {
         Err(p) => out(buf, &format!("DIG panic # {}", panic_msg(&p))),
         Ok(Err(e)) => {
@@ -986,12 +1137,11 @@ fn run_dig(c: &Case, buf: &mut String) {
             // the missing names as a set: the message is "Signals a, b found in tests but not found
             // in circuit", the names are joined with ", " in HashSet order and contain no white
             // space themselves
-            let msg = format!("{e}");
-            if let (true, Some(list)) = (
-                kind == "MissingSignals",
-                msg.strip_prefix("Signals ")
-                    .and_then(|m| m.strip_suffix(" found in tests but not found in circuit")),
-            ) {
+            // (taken from the Debug form `DigFileError(MissingSignals("a, b"))`, not from the wording of the message)
+            let payload = dbg
+                .find("MissingSignals(\"")
+                .and_then(|i| dbg.rfind("\")").map(|j| debug_unescape(&dbg[i + "MissingSignals(\"".len()..j.max(i + "MissingSignals(\"".len())])));
+            if let (true, Some(list)) = (kind == "MissingSignals", payload.as_deref()) {
                 let mut names: Vec<&str> = list.split(", ").collect();
                 names.sort();
                 names.dedup();
